@@ -60,8 +60,8 @@ def classify_l1(c, model, prop):
                 out.append(dict(layer="correspondence", what="byte level: model and Conn/Batch differ although the real code's result meets the fetch predicate", input=None))
             else:
                 out.append(dict(layer="property", what="byte level: Conn.ReadBatch result differs from the model and breaks the fetch predicate", input=c))
-    if "unordered-formats" in feats:
-        return out
+    if "unordered-formats" in feats or "cut<first" in feats:
+        return out       # outside the broker specification: compared with the model only
     if go == "panic":
         if "emptybatch" in feats:
             out.append(dict(layer="property", key=PANIC_KEY,
